@@ -4,7 +4,7 @@ from .. import common, gen, mergecorr, oracles, t2
 from . import base
 from .C04 import set_plain
 
-THEOREMS = ['C08_new_key_rejected', 'C08_children_inherit', 'C08_first_stage']
+THEOREMS = ['C08_new_key_rejected', 'C08_children_inherit', 'C08_first_stage', 'C08_cmdline_path']
 PLAIN = gen.PROFILES['plain']
 
 
@@ -215,6 +215,33 @@ def run(rep, tier, rng):
     t2.run(rep, ['eff', 'ck'] if tier == 'quick' else ['eff', 'ck', 'adopt'], tier)
     n = 300 if tier == 'quick' else 5000
     base.merge_t3(rep, rng, ['notnew', 'notnewf'], n, 'notnew', 2, 4)
+    # T3: the inline-option translation of Config.process_cmdline, character by character (malformed indices included)
+    from awesomeyaml.config import Config as _Config
+
+    def astr(t):
+        return '[' + '; '.join('"%s"%%char' % (c if c != '"' else '""') for c in t) + ']'
+    citems, copts = [], []
+    cnames = ['a', 'b', 'model', 'opt_1', 'lr', 'x9', '_p']
+    for _ in range(300 if tier == 'quick' else 4000):
+        parts = []
+        for _ in range(rng.randint(1, 4)):
+            idx = ''.join('[%s]' % rng.choice(['0', '1', '12', '007', '3']) for _ in range(rng.choice([0, 0, 1, 2])))
+            parts.append(rng.choice(['', ' ']) + rng.choice(cnames) + idx + rng.choice(['', ' ']))
+        opt = rng.choice(['', ' ']) + '.'.join(parts) + rng.choice(['=', ' = ']) + rng.choice(['5', 'foo', '[1, 2]', '{k: 1}', ' 7 ', 'a=b', 'null'])
+        if rng.random() < 0.08:
+            opt = opt.replace('[', '[x', 1)
+        try:
+            exp = '(Some %s)' % astr(_Config.process_cmdline([opt])[0][0])
+        except Exception:
+            exp = 'None'
+        citems.append(f'({astr(opt)}, {exp})')
+        copts.append(opt)
+    chdr = 'From AY Require Import Model.Eq Model.Cmdline.\nFrom Coq Require Import Ascii.\nOpen Scope Z_scope.\n'
+    cchk = 'fun c : list ascii * option (list ascii) => match inline_yaml (fst c), snd c with Some a, Some b => ascii_list_eqb a b | None, None => true | _, _ => false end'
+    bad, errors, wall, cmd = common.run_case_files('c08c', chdr, citems, cchk, shard=150)
+    rep.checker_cmds.append(cmd)
+    rep.oblige(f'T3 correspondence Model.Cmdline.inline_yaml = Config.process_cmdline on {len(citems)} inline options (text of the generated document, errors for malformed indices)',
+               not bad and not errors, (f'{len(bad)} disagreements, first {copts[bad[0]]!r}' if bad else '') + (errors[0]['log'][-400:] if errors else ''))
     nn, cm = [], []
     for _ in range(500 if tier == 'quick' else 8000):
         nn.append(gen_case(rng))
